@@ -4,6 +4,7 @@ import (
 	"go/ast"
 	"go/token"
 	"go/types"
+	"sort"
 	"strings"
 )
 
@@ -119,7 +120,9 @@ func rulesC06(r *Run) {
 	boolGateRouting(r, "R1", smKey("PlanBypassChecks"), smKey("runBypasses"), []string{"End"}, []string{"PlanPreChecks"})
 	boolGateRouting(r, "R1", smKey("BlockBypassChecks"), smKey("runBypasses"), []string{"BlockEnd"}, []string{"BlockPreChecks"})
 	ruleRunBypasses(r, "R1")
-	r.Expect("R1", 6)
+	ruleBypassConsulted(r, "R1", smKey("PlanBypassChecks"), "workflow.Plan")
+	ruleBypassConsulted(r, "R1", smKey("BlockBypassChecks"), "workflow.Block")
+	r.Expect("R1", 8)
 
 	r.Kind("R2", "K4")
 	g := r.P.CallGraph()
@@ -169,7 +172,9 @@ func rulesC06(r *Run) {
 	ruleGateRunsContChecks(r, "R4", smKey("PlanPreChecks"), "workflow.Plan")
 	ruleGateRunsContChecks(r, "R4", smKey("BlockPreChecks"), "workflow.Block")
 	ruleContJoin(r, "R4", planMachine(r, "R4")) // a failing pre-check must end the scope Failed, not hang it in the drain of a channel nobody closes
-	r.Expect("R4", 22)
+	ruleFixFailedGate(r, "R4", smKey("fixBlock"), "workflow.Block")
+	ruleFixFailedGate(r, "R4", smKey("fixPlan"), "workflow.Plan")
+	r.Expect("R4", 28)
 }
 
 // ruleRunBypasses: runBypasses returns true only when Wait's error is nil, and the
@@ -832,7 +837,8 @@ func ruleGroupState(r *Run, rule, state, owner, group, failOwner string) {
 func rulesC08(r *Run) {
 	r.Kind("R1", "K3")
 	ruleRunningBeforePlugin(r, "R1")
-	r.Expect("R1", 2)
+	ruleStatusChangeWritten(r, "R1", planMachine(r, "R1"))
+	r.Expect("R1", 4)
 
 	r.Kind("R2", "K3")
 	{
@@ -1142,7 +1148,8 @@ func rulesC09(r *Run) {
 	ruleRecoveryTerminal(r, "R1")
 	ruleIsCompleted(r, "R1")
 	ruleFilterCompaction(r, "R1") // a plan closed as Failed at start-up must not also be resumed
-	r.Expect("R1", 10)
+	ruleSkipBlockIffTerminal(r, "R1")
+	r.Expect("R1", 12)
 
 	r.Kind("R2", "K2")
 	ruleFixAction(r, "R2")
@@ -1811,6 +1818,34 @@ func ruleRepairThenClassify(r *Run, rule, fnKey, fixKey, owner string) {
 	if fn == nil {
 		return
 	}
+	// the loop may live in a piece the function was split into: take the function or private helper that holds it
+	holdsLoop := func(f *Func) bool {
+		found := false
+		ast.Inspect(f.Decl.Body, func(n ast.Node) bool {
+			x, ok := n.(*ast.RangeStmt)
+			if !ok || found {
+				return true
+			}
+			ast.Inspect(x.Body, func(m ast.Node) bool {
+				if c, ok := m.(*ast.CallExpr); ok && len(c.Args) >= 1 {
+					if cf, ok := calleeFunc(f.Pkg.TypesInfo, c); ok && FuncKey(cf) == fixKey && IsLoopElem(f.Pkg.TypesInfo, x, c.Args[len(c.Args)-1]) {
+						found = true
+					}
+				}
+				return !found
+			})
+			return true
+		})
+		return found
+	}
+	if !holdsLoop(fn) {
+		for _, h := range r.P.privateHelpers(fn) {
+			if holdsLoop(h) {
+				fn = h
+				break
+			}
+		}
+	}
 	fl, paths, ok := r.flowPaths(rule, fn)
 	if !ok {
 		return
@@ -1951,7 +1986,7 @@ func ruleFixVerdictSticky(r *Run, rule, fnKey, owner string) {
 	if !ok {
 		return
 	}
-	paths = fl.OwnCode(paths)
+	paths = fl.OwnOnly(paths)
 	info := fl.Info
 	var subj types.Object
 	if ps := fn.Decl.Type.Params; ps != nil && len(ps.List) >= 1 && len(ps.List[len(ps.List)-1].Names) == 1 {
@@ -2037,4 +2072,409 @@ func innermostLoop(body ast.Node, pos token.Pos) ast.Stmt {
 		return true
 	})
 	return out
+}
+
+// groupAtoms: the atoms a state function can test about one check group G (recognised by isG): absent (G == nil),
+// st:<status> (G.State.Status == K), and the helper predicates isCompleted(G) (terminal), checksCompleted(G)
+// (absent or Completed), checksFailed(G) (present and Failed), skipRecoveredChecks(G) (absent).
+func groupAtoms(info *types.Info, isG func(ast.Expr) bool) AtomFn {
+	statuses := []string{"workflow.Completed", "workflow.Failed", "workflow.NotStarted", "workflow.Running", "workflow.Stopped"}
+	return func(e ast.Expr) (string, bool, bool) {
+		if x, op, ok := IsNilCompare(info, e); ok && isG(ast.Unparen(x)) {
+			return "absent", op == token.NEQ, true
+		}
+		for _, st := range statuses {
+			if neg, ok := EqAtom(info, e, func(x ast.Expr) bool {
+				b, m := FieldPath(info, x, "workflow.Checks", "State", "Status")
+				return m && isG(ast.Unparen(b))
+			}, st); ok {
+				return "st:" + st, neg, true
+			}
+		}
+		if c, ok := ast.Unparen(e).(*ast.CallExpr); ok && len(c.Args) == 1 && isG(ast.Unparen(c.Args[0])) {
+			switch {
+			case CallAtom(info, e, pkgSM+".isCompleted"):
+				return "terminal", false, true
+			case CallAtom(info, e, pkgSM+".checksCompleted"):
+				return "absent-or-completed", false, true
+			case CallAtom(info, e, pkgSM+".checksFailed"):
+				return "present-and-failed", false, true
+			case CallAtom(info, e, pkgSM+".skipRecoveredChecks"):
+				return "absent", false, true
+			}
+		}
+		return "", false, false
+	}
+}
+
+// groupAssume: the truth assignment describing a group that is absent, or present with the given status.
+func groupAssume(present bool, status string) map[string]bool {
+	a := map[string]bool{"absent": !present}
+	if !present {
+		a["terminal"], a["absent-or-completed"], a["present-and-failed"] = false, true, false
+		return a
+	}
+	for _, st := range []string{"workflow.Completed", "workflow.Failed", "workflow.NotStarted", "workflow.Running", "workflow.Stopped"} {
+		a["st:"+st] = st == status
+	}
+	a["terminal"] = status == "workflow.Completed" || status == "workflow.Failed" || status == "workflow.Stopped"
+	a["absent-or-completed"] = status == "workflow.Completed"
+	a["present-and-failed"] = status == "workflow.Failed"
+	return a
+}
+
+// ruleFailedGroupNotPassed (round-3 seed C10-5): a block-level check state must not let the block go on as if nothing
+// had happened when its group is present and already Failed (the durable state a crash can leave behind between the
+// write of the group and the write of the block). Assume "present ∧ Failed" and refute: every returning path that
+// stays possible runs the group again (runChecksOnce on it) or fails the block. A block's status is never re-derived
+// from its groups later (unlike the plan's, in End), so a skipped Failed group ends in a Completed block.
+func ruleFailedGroupNotPassed(r *Run, rule, fnKey, group string) {
+	fn := r.fnByKey(rule, fnKey)
+	if fn == nil {
+		return
+	}
+	fl, paths, ok := r.flowPaths(rule, fn)
+	if !ok {
+		return
+	}
+	info := fl.Info
+	isG := fieldMatcher(info, "workflow.Block", group)
+	atom := groupAtoms(info, isG)
+	asg := groupAssume(true, "workflow.Failed")
+	bad := ""
+	var bpos token.Pos = fn.Decl.Pos()
+	n := 0
+	for i := range paths {
+		p := &paths[i]
+		if p.Exit != ExitReturn || PathRefuted(fl, p, -1, asg, atom) {
+			continue
+		}
+		n++
+		handled := false
+		for _, e := range p.Ev {
+			if IsCall(e, smKey("runChecksOnce")) && e.Call != nil {
+				for _, a := range e.Call.Args {
+					if isG(ast.Unparen(a)) {
+						handled = true
+					}
+				}
+			}
+			if v, ok := StatusAssign(info, e, "workflow.Block"); ok && v == "workflow.Failed" {
+				handled = true
+			}
+		}
+		if !handled && bad == "" {
+			bad = "a path of " + ShortFn(fnKey) + " is possible for a block whose " + group + " are present and already Failed (exit guard " + ExitGuardKey(fl, p) + ") and neither runs them again nor fails the block: after a crash between the write of the failed checks and the write of the block the block ends Completed"
+			for _, e := range p.Ev {
+				if e.Kind == EvReturn && !e.Deferred && e.Depth == 0 {
+					bpos = e.Pos
+				}
+			}
+		}
+	}
+	if n == 0 {
+		r.Unresolved(rule, ShortFn(fnKey)+" has a returning path for a present, Failed "+group)
+		return
+	}
+	r.Check(rule, ShortFn(fnKey)+":failed-"+group+"-not-passed-over", bpos, bad == "", "%s", orOK(bad, "present ∧ Failed ⇒ run again or block Failed"))
+}
+
+// ruleSkipBlockIffTerminal (round-3 seed C09-5): skipBlock is the only guard that keeps ExecuteBlock from walking a
+// finished block again after recovery; it must answer true for every block whose status is terminal, whatever
+// state its children are in (a block completed by its bypass checks keeps NotStarted sequences), and false for
+// every other block. Assume-and-refute over the paths of skipBlock with the atom isCompleted(<the block>).
+func ruleSkipBlockIffTerminal(r *Run, rule string) {
+	fn := r.fnByKey(rule, pkgSM+".skipBlock")
+	if fn == nil {
+		return
+	}
+	fl, paths, ok := r.flowPaths(rule, fn)
+	if !ok {
+		return
+	}
+	paths = OwnOnly(paths)
+	info := fl.Info
+	isBlock := func(e ast.Expr) bool {
+		tv, ok := info.Types[ast.Unparen(e)]
+		return ok && strings.TrimPrefix(ShortType(tv.Type), "*") == "workflow.Block"
+	}
+	atom := func(e ast.Expr) (string, bool, bool) {
+		if c, ok := ast.Unparen(e).(*ast.CallExpr); ok && len(c.Args) == 1 && CallAtom(info, e, pkgSM+".isCompleted") && isBlock(c.Args[0]) {
+			return "terminal", false, true
+		}
+		for _, st := range []string{"workflow.Completed", "workflow.Failed", "workflow.Stopped"} {
+			if neg, ok := EqAtom(info, e, func(x ast.Expr) bool {
+				b, m := FieldPath(info, x, "workflow.Block", "State", "Status")
+				return m && isBlock(b)
+			}, st); ok {
+				return "st:" + st, neg, true
+			}
+		}
+		return "", false, false
+	}
+	decide := func(asg map[string]bool, want bool, key, msg string) {
+		bad := ""
+		var bpos token.Pos = fn.Decl.Pos()
+		n := 0
+		for i := range paths {
+			p := &paths[i]
+			if p.Exit != ExitReturn || PathRefuted(fl, p, -1, asg, atom) {
+				continue
+			}
+			for _, e := range p.Ev {
+				if e.Kind != EvReturn || e.Depth != 0 || len(e.Rhs) != 1 {
+					continue
+				}
+				n++
+				v := ValueKey(info, e.Rhs[0])
+				if v != boolStr(want) && bad == "" {
+					if ev, known := (&refuter{fl: fl, asg: asg, atom: atom, bound: map[types.Object][2]bool{}}).eval(e.Rhs[0]); known && ev == want {
+						continue
+					}
+					bad, bpos = msg+" (skipBlock answers "+orOK(v, ExprStr(e.Rhs[0]))+", exit guard "+ExitGuardKey(fl, p)+")", e.Pos
+				}
+			}
+		}
+		if n == 0 {
+			r.Unresolved(rule, "skipBlock returning path: "+key)
+			return
+		}
+		r.Check(rule, "skipBlock:"+key, bpos, bad == "", "%s", orOK(bad, "as required on every path"))
+	}
+	decide(map[string]bool{"terminal": true}, true, "terminal-block-always-skipped",
+		"a block whose status is Completed, Failed or Stopped is not skipped on some path: after a restart a durably finished block is entered again, written Running and its checks and sequences are executed a second time")
+	decide(map[string]bool{"terminal": false, "st:workflow.Completed": false, "st:workflow.Failed": false, "st:workflow.Stopped": false}, false, "unfinished-block-never-skipped",
+		"a block that is not finished is skipped on some path")
+}
+
+// ruleBypassConsulted (round-3 seed C06-5): the scope is entered without evaluating its bypass checks only when there
+// are none or when they are already known to have failed. For a present group in any other state (NotStarted, or
+// Completed/Running after a restart) every returning path that stays possible consults runBypasses — a bypass
+// group stored Completed must bypass the scope again, not be taken for "already dealt with".
+func ruleBypassConsulted(r *Run, rule, fnKey, owner string) {
+	fn := r.fnByKey(rule, fnKey)
+	if fn == nil {
+		return
+	}
+	fl, paths, ok := r.flowPaths(rule, fn)
+	if !ok {
+		return
+	}
+	info := fl.Info
+	isG := fieldMatcher(info, owner, "BypassChecks")
+	atom := groupAtoms(info, isG)
+	bad := ""
+	var bpos token.Pos = fn.Decl.Pos()
+	n := 0
+	for _, st := range []string{"workflow.NotStarted", "workflow.Completed", "workflow.Running"} {
+		asg := groupAssume(true, st)
+		for i := range paths {
+			p := &paths[i]
+			if p.Exit != ExitReturn || PathRefuted(fl, p, -1, asg, atom) {
+				continue
+			}
+			n++
+			consulted := false
+			for _, e := range p.Ev {
+				if IsCall(e, smKey("runBypasses")) && !e.Deferred {
+					consulted = true
+				}
+			}
+			if !consulted && bad == "" {
+				bad = "a path of " + ShortFn(fnKey) + " (successor " + nextOf(fl, p) + ", exit guard " + ExitGuardKey(fl, p) + ") is possible for a scope whose BypassChecks are present and " + strings.TrimPrefix(st, "workflow.") + " and does not evaluate them: after a restart a scope whose bypass checks had all succeeded is executed"
+				for _, e := range p.Ev {
+					if e.Kind == EvReturn && !e.Deferred && e.Depth == 0 {
+						bpos = e.Pos
+					}
+				}
+			}
+		}
+	}
+	if n == 0 {
+		r.Unresolved(rule, ShortFn(fnKey)+" returning path for a present bypass group")
+		return
+	}
+	r.Check(rule, ShortFn(fnKey)+":present-bypass-group-is-evaluated", bpos, bad == "", "%s", orOK(bad, "present ∧ not Failed ⇒ runBypasses consulted on every path"))
+}
+
+// ruleStatusChangeWritten (C08-R1, round-3 seed C06-5): a state of the plan machine that changes the status of the plan
+// or of the head block makes that change durable before the machine moves on — on every returning path an
+// assignment to X.State.Status is followed (in place or by a deferred function) by the update call for X's kind, or
+// by a call of a function that writes every kind. A status that exists only in memory while the next state acts
+// on it is exactly what persist-before-act forbids, and after a crash the store shows a state the engine had
+// already left (a block still NotStarted whose bypass checks are Completed).
+func ruleStatusChangeWritten(r *Run, rule string, m *Machine) {
+	want := map[string]string{"workflow.Block": "UpdateBlock", "workflow.Plan": "UpdatePlan"}
+	n := 0
+	var states []string
+	for st := range m.States {
+		states = append(states, st)
+	}
+	sort.Strings(states)
+	for _, st := range states {
+		fn := m.States[st]
+		if fn == nil {
+			continue
+		}
+		fl, paths, ok := r.flowPaths(rule, fn)
+		if !ok {
+			continue
+		}
+		info := fl.Info
+		for owner, upd := range want {
+			bad := ""
+			var bpos token.Pos = fn.Decl.Pos()
+			seen := false
+			for i := range paths {
+				p := &paths[i]
+				if p.Exit != ExitReturn {
+					continue
+				}
+				last := -1
+				for j, e := range p.Ev {
+					if e.Depth > 0 && !strings.HasPrefix(e.From, pkgSM+".finalStates.") {
+						continue
+					}
+					// entering: the object becomes Running. (A failure verdict is deliberately not written by the state that
+					// reaches it but by the scope's end state, after its deferred checks — C10-R4.)
+					if v, ok := StatusAssign(info, e, owner); ok && v == "workflow.Running" {
+						last = j
+					}
+				}
+				if last < 0 {
+					continue
+				}
+				seen = true
+				written := false
+				for j := last + 1; j < len(p.Ev); j++ {
+					e := p.Ev[j]
+					if e.Maybe {
+						continue
+					}
+					if name, isU := isUpdaterCall(e); isU && name == upd {
+						written = true
+					}
+					if e.Kind == EvCall && !e.Inlined {
+						if k := CalleeKey(e); strings.HasPrefix(k, pkgSM+".") && updatesReachedFrom(r, k)[upd] {
+							written = true
+						}
+					}
+				}
+				if !written && bad == "" {
+					bad = "a path of " + st + " marks the " + strings.TrimPrefix(owner, "workflow.") + " Running and returns without " + upd + " (exit guard " + ExitGuardKey(fl, p) + "): the next state acts on a status that is not durable"
+					bpos = p.Ev[last].Pos
+				}
+			}
+			if seen {
+				n++
+				r.Check(rule, "status-change-written:"+st+":"+strings.TrimPrefix(owner, "workflow."), bpos, bad == "", "%s", orOK(bad, "every status change is followed by the write of the object"))
+			}
+		}
+	}
+	if n == 0 {
+		r.Unresolved(rule, "state functions assigning a status")
+	}
+}
+
+// ruleFixFailedGate (round-3 seed C06-6): a gate of a scope (PreChecks, ContChecks, PostChecks) that was durably Failed at the
+// crash fails the scope on recovery, whatever else is true of it. Assume "scope Running ∧ G present ∧ G Failed" for
+// each gate G in turn and refute: every returning path of the repair function that stays possible leaves the scope
+// Failed. Otherwise a block whose first ContChecks run failed while its PreChecks were still running starts over,
+// and with a check that passes the second time its sequences run.
+func ruleFixFailedGate(r *Run, rule, fnKey, owner string) {
+	fn := r.fnByKey(rule, fnKey)
+	if fn == nil {
+		return
+	}
+	fl, paths, ok := r.flowPaths(rule, fn)
+	if !ok {
+		return
+	}
+	info := fl.Info
+	paths = fl.OwnOnly(paths) // the pieces a repair function was split into belong to it
+	var subj types.Object
+	if ps := fn.Decl.Type.Params; ps != nil && len(ps.List) >= 1 && len(ps.List[len(ps.List)-1].Names) == 1 {
+		subj = info.ObjectOf(ps.List[len(ps.List)-1].Names[0])
+	}
+	if subj == nil {
+		r.Unresolved(rule, ShortFn(fnKey)+" subject parameter")
+		return
+	}
+	for _, group := range []string{"PreChecks", "ContChecks", "PostChecks"} {
+		isG := func(e ast.Expr) bool {
+			b, m := FieldPath(info, e, owner, group)
+			return m && ObjOf(info, ast.Unparen(b)) == subj
+		}
+		gAtom := groupAtoms(info, isG)
+		// a scope with a failed gate was not bypassed: its bypass group, if any, is not Completed
+		byAtom := groupAtoms(info, func(e ast.Expr) bool {
+			b, m := FieldPath(info, e, owner, "BypassChecks")
+			return m && ObjOf(info, ast.Unparen(b)) == subj
+		})
+		atom := func(e ast.Expr) (string, bool, bool) {
+			if k, neg, ok := gAtom(e); ok {
+				return k, neg, ok
+			}
+			if k, neg, ok := byAtom(e); ok && (k == "st:workflow.Completed" || k == "absent-or-completed") {
+				return "bypass-completed", neg, true
+			}
+			// the subject itself is Running (the prologue returns otherwise)
+			if neg, ok := EqAtom(info, e, func(x ast.Expr) bool {
+				b, m := FieldPath(info, x, owner, "State", "Status")
+				return m && ObjOf(info, ast.Unparen(b)) == subj
+			}, "workflow.Running"); ok {
+				return "subject-running", neg, true
+			}
+			return "", false, false
+		}
+		asg := groupAssume(true, "workflow.Failed")
+		asg["subject-running"] = true
+		asg["bypass-completed"] = false
+		bad := ""
+		var bpos token.Pos = fn.Decl.Pos()
+		n := 0
+		for i := range paths {
+			p := &paths[i]
+			if p.Exit != ExitReturn || PathRefuted(fl, p, -1, asg, atom) {
+				continue
+			}
+			last := ""
+			infeasible := false
+			for _, e := range p.Ev {
+				if e.Kind == EvBranch && last != "" && e.Depth == 0 {
+					// the path tests the status it has itself assigned to the subject: only the agreeing direction is possible
+					for _, l := range EventLiterals(info, e) {
+						if b, m := FieldPath(info, l.X, owner, "State", "Status"); m && ObjOf(info, ast.Unparen(b)) == subj && strings.HasPrefix(l.Val, "workflow.") && (l.Val == last) != l.Eq {
+							infeasible = true
+						}
+					}
+				}
+				if e.Kind != EvAssign || len(e.Lhs) != len(e.Rhs) || e.Depth > 0 {
+					continue
+				}
+				for k, l := range e.Lhs {
+					if b, m := FieldPath(info, l, owner, "State", "Status"); m && ObjOf(info, ast.Unparen(b)) == subj {
+						last = ValueKey(info, e.Rhs[k])
+					}
+				}
+			}
+			if infeasible {
+				continue
+			}
+			n++
+			if last != "workflow.Failed" && last != "workflow.Stopped" && bad == "" {
+				bad = "a path of " + ShortFn(fnKey) + " is possible for a Running scope whose " + group + " are present and Failed and leaves the scope " + orOK(strings.TrimPrefix(last, "workflow."), "Running") + " (exit guard " + ExitGuardKey(fl, p) + "): the failed gate is forgotten, the scope starts over or goes on, and its sequences can run"
+				for _, e := range p.Ev {
+					if e.Kind == EvReturn && !e.Deferred && e.Depth == 0 {
+						bpos = e.Pos
+					}
+				}
+			}
+		}
+		if n == 0 {
+			r.Unresolved(rule, ShortFn(fnKey)+" returning path for Failed "+group)
+			continue
+		}
+		r.Check(rule, ShortFn(fnKey)+":failed-"+group+"-fails-the-scope", bpos, bad == "", "%s", orOK(bad, "Running ∧ "+group+" Failed ⇒ scope Failed on every path"))
+	}
 }
